@@ -169,6 +169,10 @@ def drive_env(name, tier, seed):
     call("reset", "jit", jreset, (K1,), note="repeat after another key")
     env_b = mk()
     call("reset", "fresh_instance_jit", jax.jit(env_b.reset), (K1,))
+    env_r = mk()     # a fresh instance that sees the keys in the opposite order (exposes "first call wins" caches)
+    jr = jax.jit(env_r.reset)
+    call("reset", "fresh_instance_reversed_order", jr, (K2,))
+    call("reset", "fresh_instance_reversed_order", jr, (K1,))
     if eager_ok:
         call("reset", "eager", env.reset, (K1,), note="eager after jit")
         call("reset", "jit", jreset, (K1,), note="jit after eager")
